@@ -380,7 +380,10 @@ def gen_conditions(module, factory, tier, seed, groups=("T1", "T2", "T3", "T4"),
                 continue
             if t.group == "T1":
                 for k in t.kinds:
-                    cond(t, d, "obj_int#01" if (quick and t1_obj_small and k == "obj_int") else k)
+                    if quick and t1_obj_small and k == "obj_int":
+                        cond(t, d, "obj_int#01", tags=())       # with at most one member not every verdict class is reachable
+                    else:
+                        cond(t, d, k)
                 if rest and rest_type(t.kinds) is not None and (not quick or t.name not in ("enum", "const", "type", "type_list")):
                     cond(t, d, "rest", tags=())
             elif t.group == "T2":
